@@ -142,7 +142,8 @@ SetupMenu ==
           [op |-> "push_layer", opacity |-> Opacities[1], blend |-> "Src"]}
     [] FOCUS = "xform" ->
          {Transforms[i] : i \in 1..Len(Transforms)}
-         \cup {[op |-> "push_clip_rect", r |-> ClipRects[1]], [op |-> "push_layer", opacity |-> <<1, 2>>, blend |-> "SrcOver"]}
+         \cup {[op |-> "push_clip_rect", r |-> ClipRects[1]], [op |-> "push_layer", opacity |-> <<1, 2>>, blend |-> "SrcOver"],
+               [op |-> "push_layer", opacity |-> <<0, 1>>, blend |-> "SrcOver"]}     \* (an invisible layer must leave T alone too)
     [] OTHER ->
          {[op |-> "push_clip_rect", r |-> ClipRects[i]] : i \in {1, 3, 5, 9}}
          \cup {[op |-> "push_clip", path |-> ClipPaths[i]] : i \in {1, 2}}
